@@ -30,7 +30,7 @@ TRUSTED = ["Gen.C20.rowMin/rowMax regenerated from fits_tools.load_image_band by
 PARTIAL = []
 
 COLS = 3
-HEADER = dict(CTYPE1='RA---SIN', CTYPE2='DEC--SIN', CRVAL1=30.0, CRVAL2=-20.0, CDELT1=-0.01, CDELT2=0.01,
+HEADER = dict(CTYPE1='RA---SIN', CTYPE2='DEC--SIN', CRVAL1=30.0, CRVAL2=-20.0, CDELT1=-1e-4, CDELT2=1e-4,
               CRPIX1=2.0, CRPIX2=5.0)
 
 
@@ -139,7 +139,7 @@ def judge(ctx, rows, n, variant, obs, full, fhdr, model_lines, spec_line, check_
             pts_b = np.array([[1, 1], [COLS, o['nrows']]], dtype=float)
             pts_f = pts_b + np.array([0, lo])
             sb, sf = wb.wcs_pix2world(pts_b, 1), wf.wcs_pix2world(pts_f, 1)
-            if not np.allclose(sb, sf, rtol=0, atol=1e-9):
+            if not np.allclose(sb, sf, rtol=0, atol=1e-9, equal_nan=True):
                 ctx.fail('spec', dict(case, i=i), f"band pixel sky positions {sb.tolist()} != full image {sf.tolist()}",
                          dict(site='load_image_band', what='band-wcs', variant=variant))
                 ok = False
